@@ -306,5 +306,129 @@ pub fn run() -> Vec<String> {
     if ref_pad(&unhex("80cb0000").unwrap(), 4) != unhex("a0cb000100000004").unwrap() {
         bad.push("ref_pad".into());
     }
+    bad.extend(model_consistency(1500));
     bad
+}
+
+/// The reference encoder and the reference decoders / predicates were written separately; on
+/// generated representable specs (fixed seed) they must agree with each other: the image of a leaf is
+/// well framed for its type and has the announced size, the FCI decodes back to what was encoded, an
+/// SDES image tokenises as "must accept" into the spec's chunks, a concatenation tiles at the member
+/// boundaries, `ref_pad` adds exactly the padding. A disagreement is a broken harness (exit 2).
+pub fn model_consistency(n: usize) -> Vec<String> {
+    use crate::gen;
+    use proptest::strategy::{Strategy, ValueTree};
+    use proptest::test_runner::{Config, RngAlgorithm, TestRng, TestRunner};
+    let mut bad = Vec::new();
+    let rng = TestRng::from_seed(RngAlgorithm::ChaCha, &[0x5e; 32]);
+    let mut runner = TestRunner::new_with_rng(Config { failure_persistence: None, ..Config::default() }, rng);
+    let leafs = gen::leaf_spec(false, false);
+    let mut images: Vec<Vec<u8>> = Vec::new();
+    for k in 0..n {
+        let spec = match leafs.new_tree(&mut runner) {
+            Ok(t) => t.current(),
+            Err(_) => continue,
+        };
+        if !violations(&spec).is_empty() {
+            bad.push(format!("generator of representable specs produced {:?} with violations {:?}", spec.long_name(), violations(&spec)));
+            break;
+        }
+        let img = ref_encode(&spec);
+        if img.len() != ref_size(&spec) {
+            bad.push(format!("ref_size {} != encoded length {} for a {}", ref_size(&spec), img.len(), spec.long_name()));
+            break;
+        }
+        let min = match &spec {
+            PacketSpec::Sr(_) => 28,
+            PacketSpec::Rr(_) => 8,
+            PacketSpec::App(_) | PacketSpec::Fb(_) => 12,
+            _ => 4,
+        };
+        match ref_framing(&img, Some(spec.pt()), min) {
+            Framing::Well { padding } if padding == spec.padding() => {}
+            other => {
+                bad.push(format!("ref_framing of ref_encode({}) = {:?}, padding configured {}", spec.long_name(), framing_name(&other), spec.padding()));
+                break;
+            }
+        }
+        match &spec {
+            PacketSpec::Fb(f) => {
+                let fci = &img[12..img.len() - f.padding as usize];
+                let ok = match &f.fci {
+                    FciSpec::Nack(_) => ref_nack_decode(fci) == f.fci.nack_set().unwrap().into_iter().collect::<Vec<u16>>(),
+                    FciSpec::Pli => fci.is_empty(),
+                    FciSpec::Sli(v) => ref_sli_decode(fci) == *v,
+                    FciSpec::Fir(_) => {
+                        let m: std::collections::BTreeMap<u32, u8> = ref_fir_decode(fci).into_iter().collect();
+                        Some(m) == f.fci.fir_map()
+                    }
+                    FciSpec::Rpsi { pt, data, overrun } => match ref_rpsi_decode(fci) {
+                        Some((p, bits)) => p == *pt && Some(bits) == bits_of(data, *overrun as usize),
+                        None => false,
+                    },
+                };
+                if !ok {
+                    bad.push(format!("reference FCI decoder disagrees with the reference encoder for {:?}: {}", f.fci, hex(fci)));
+                    break;
+                }
+            }
+            PacketSpec::Sdes(s) => match ref_sdes_tokenise(&img) {
+                SdesRef::MustAccept(chunks) => {
+                    let same = chunks.len() == s.chunks.len()
+                        && chunks.iter().zip(&s.chunks).all(|(t, c)| {
+                            t.ssrc == c.ssrc
+                                && t.items.len() == c.items.len()
+                                && t.wire_len == ref_encode_chunk(c).len()
+                                && t.items.iter().zip(&c.items).all(|(ti, ci)| ti.ty == ci.ty && ti.value == ci.value.as_bytes() && (ci.ty != 8 || ti.prefix == ci.prefix))
+                        });
+                    if !same {
+                        bad.push(format!("ref_sdes_tokenise(ref_encode(sdes)) differs from the spec: {}", hex(&img)));
+                        break;
+                    }
+                }
+                _ => {
+                    bad.push(format!("ref_sdes_tokenise does not class ref_encode(sdes) as must-accept: {}", hex(&img)));
+                    break;
+                }
+            },
+            _ => {}
+        }
+        if spec.padding() == 0 && k % 3 == 0 {
+            let p = ref_pad(&img, 8);
+            let mut padded = spec.clone();
+            padded.set_padding(8);
+            if p != ref_encode(&padded) {
+                bad.push(format!("ref_pad(ref_encode(spec), 8) != ref_encode(spec with padding 8) for a {}", spec.long_name()));
+                break;
+            }
+        }
+        if images.len() < 4 {
+            images.push(img);
+        } else {
+            let cat: Vec<u8> = images.iter().flatten().copied().collect();
+            let mut at = 0usize;
+            let want: Vec<(usize, usize)> = images
+                .iter()
+                .map(|i| {
+                    let r = (at, at + i.len());
+                    at += i.len();
+                    r
+                })
+                .collect();
+            if ref_tile(&cat) != Some(want) {
+                bad.push("ref_tile does not tile a concatenation of reference images at the member boundaries".into());
+                break;
+            }
+            images.clear();
+        }
+    }
+    bad
+}
+
+fn framing_name(f: &Framing) -> String {
+    match f {
+        Framing::Well { padding } => format!("Well{{padding:{padding}}}"),
+        Framing::PaddingZone => "PaddingZone".into(),
+        Framing::Bad(w) => format!("Bad({w})"),
+    }
 }
